@@ -233,10 +233,17 @@ def fields_mapping_facts():
     m = _pm()
     fi = m.func("gapic.schema.wrappers.Method._fields_mapping")
     nf = nfunc(m, fi, keep={"RESERVED_NAMES", "get_field", "OrderedDict"})
+    FIELD = "self.input.get_field(*_ANYK_.split('.'))"
+    pat_pp = canon_globals(m, norm_expr(ast.parse(
+        f"f'{{_ANYK_}}_' if {FIELD}.field_pb.name in utils.RESERVED_NAMES and {FIELD}.meta.address.is_proto_plus_type else _ANYK_", mode="eval").body))
     pat = canon_globals(m, norm_expr(ast.parse(
-        "f'{_ANYK_}_' if self.input.get_field(*_ANYK_.split('.')).field_pb.name in utils.RESERVED_NAMES else _ANYK_", mode="eval").body))
-    node, b = find_match_ast(pat, nf)
-    facts = {"fi": fi, "key_rule": False, "key_pos": False, "order": False, "shown": ""}
+        f"f'{{_ANYK_}}_' if {FIELD}.field_pb.name in utils.RESERVED_NAMES else _ANYK_", mode="eval").body))
+    facts = {"fi": fi, "key_rule": False, "key_pos": False, "order": False, "shown": "", "proto_plus_only": False}
+    node, b = find_match_ast(pat_pp, nf)
+    if node is not None:
+        facts["proto_plus_only"] = True
+    else:
+        node, b = find_match_ast(pat, nf)
     if node is None:
         return facts
     K = b["_ANYK_"]
